@@ -106,6 +106,7 @@ structure State (E : Type) where
 inductive Act (E : Type) where
   | passBegin (o : Owner)
   | passRead
+  | passSkip
   | passHandleA
   | passHandleB
   | evalTake (p : PortId)
@@ -173,6 +174,19 @@ def step? (cfg : Cfg E) (s : State E) : Act E → Option (State E)
           some { (s.setPort q fun P => { P with lastRead := P.drv }) with
                  pass := some { ps with todo := rest, changed := q :: ps.changed } }
         else some { s with pass := some { ps with todo := rest } }
+    | none => none
+  | .passSkip =>
+    -- the head port's read yields nothing: the driver's `read_value` raises (the port is then not polled for
+    -- `_PORT_READ_ERROR_RETRY_INTERVAL`, which is again this action) or raises `SkipRead`; `update()` does `continue`
+    -- and the last read value stays. Only for ports WITHOUT expression (a failing read of an expression port would
+    -- leave its own write unconfirmed; such driver faults are C15's subject).
+    match s.pass with
+    | some ps =>
+      if ps.handling then none else
+      match ps.todo with
+      | [] => none
+      | q :: rest =>
+        if (s.port q).expr.isNone then some { s with pass := some { ps with todo := rest } } else none
     | none => none
   | .passHandleA =>
     match s.pass with
